@@ -48,6 +48,11 @@ pub struct Ctx {
     current: Arc<Mutex<Option<(Instant, String)>>>,
     pub case_timeout: Duration,
     timeout_ms: Arc<AtomicU64>,
+    /// every `again_every`-th request an earlier request of this run is executed again (0 = never): the functions
+    /// under test are pure, so the answer must not depend on what was computed in between
+    pub again_every: u64,
+    past: Vec<(String, Vec<u64>, String)>,
+    again_state: u64,
 }
 
 static CASE_NO: AtomicU64 = AtomicU64::new(0);
@@ -85,6 +90,9 @@ impl Ctx {
             current: current.clone(),
             case_timeout: Duration::from_secs(20),
             timeout_ms: Arc::new(AtomicU64::new(20_000)),
+            again_every: 0,
+            past: vec![],
+            again_state: seed ^ 0x5DEE_CE66_D1CE_4E5B,
         };
         // watchdog: a case that does not return is recorded as a hang; the process then stops
         // (exit code 3) — the orchestrator treats the hang as the verdict of that case.
@@ -137,6 +145,41 @@ impl Ctx {
     }
 
     pub fn case(&mut self, op: &str, args: &[u64]) {
+        let out = self.case_checked(op, args, None);
+        if self.again_every == 0 {
+            return;
+        }
+        // reservoir of earlier requests (small ones only) with the answers they got
+        if args.len() <= 600 {
+            self.again_state = self.again_state.wrapping_mul(6364136223846793005).wrapping_add(1442695040888963407);
+            if self.past.len() < 48 {
+                self.past.push((op.to_string(), args.to_vec(), out));
+            } else if (self.again_state >> 33) % 8 == 0 {
+                let k = ((self.again_state >> 40) % 48) as usize;
+                self.past[k] = (op.to_string(), args.to_vec(), out);
+            }
+        }
+        if self.n % self.again_every == self.again_every - 1 && !self.past.is_empty() {
+            self.again_state = self.again_state.wrapping_mul(6364136223846793005).wrapping_add(1442695040888963407);
+            let k = ((self.again_state >> 35) % self.past.len() as u64) as usize;
+            let (op2, args2, out2) = self.past[k].clone();
+            let exec = self.exec;
+            let res = catch_unwind(AssertUnwindSafe(|| exec(&op2, &args2)));
+            let same = match &res {
+                Ok(Ok(o)) => o.out == out2,
+                Ok(Err(e)) => format!("bad-request {e}") == out2,
+                Err(_) => out2 == "panic",
+            };
+            self.count("executed-again");
+            if !same {
+                // recorded as a request of its own: the answer of this execution, judged against the earlier one
+                self.case_checked(&op2, &args2, Some(out2));
+            }
+        }
+    }
+
+    /// `earlier`: the answer the same request got earlier in this run (must be reproduced)
+    fn case_checked(&mut self, op: &str, args: &[u64], earlier: Option<String>) -> String {
         let mut line = String::from(op);
         for a in args {
             line.push(' ');
@@ -176,6 +219,10 @@ impl Ctx {
         // one line per case in every file: no line breaks of any kind inside an answer or an oracle message
         let one_line = |t: String| -> String { t.chars().map(|c| if c.is_control() || c == '\u{2028}' || c == '\u{2029}' { ' ' } else { c }).collect() };
         let out = one_line(out);
+        let orc = match earlier {
+            Some(e) if one_line(e.clone()) != out => orc.or(Some("the same request was answered differently earlier in this run (the answer depends on what was computed in between)".to_string())),
+            _ => orc,
+        };
         let orc = orc.map(one_line);
         let kind = out.split(' ').take(if out.starts_with("err") { 2 } else { 1 }).collect::<Vec<_>>().join(" ");
         self.count(&format!("impl:{op}:{kind}"));
@@ -189,6 +236,7 @@ impl Ctx {
             }
         }
         self.n += 1;
+        out
     }
 
     pub fn finish(mut self, dir: &str) {
